@@ -219,6 +219,13 @@ theorem attempts_need_backoff (bo : Nat → Option Nat) (hpre : (pre.map (·.1))
     {q : State} (hr : ReachB fb bo (start pre rc nn) q) : ∀ e ∈ q.handed, e.2.2 = 0 ∨ (bo e.2.2).isSome :=
   (reach_B hpre hrc hr).handed
 
+/-- … and for a queue restarted on stored counters: every hand-off carries the stored counter of its message or a number the backoff
+    function allowed. -/
+theorem attempts_need_backoff_after_restart (bo : Nat → Option Nat) (att : Nat → Nat) (hpre : (pre.map (·.1)).Nodup)
+    (hrc : ∀ id ∈ pre.map (·.1), (rc id).Nodup) {q : State} (hr : ReachB fb bo (startAt pre rc nn att) q) :
+    ∀ e ∈ q.handed, e.2.2 = (if e.1 ∈ pre.map (·.1) then att e.1 else 0) ∨ (bo e.2.2).isSome :=
+  (reach_B_from (inv_startAt fb pre rc nn att hpre hrc) (A_startAt pre rc nn att) (B_startAt bo pre rc nn att) hr).handed
+
 /-- with a cut-off: no message is handed to the relay more than `N + 1` times -/
 theorem attempts_bounded (bo : Nat → Option Nat) (N : Nat) (hN : ∀ a, N < a → bo a = none)
     (hpre : (pre.map (·.1)).Nodup) (hrc : ∀ id ∈ pre.map (·.1), (rc id).Nodup)
